@@ -1,0 +1,61 @@
+package tax_test
+
+import (
+	"encoding/json"
+	"regexp"
+	"testing"
+
+	_ "github.com/invopop/gobl" // load all mods
+	"github.com/invopop/gobl/cbc"
+	"github.com/invopop/gobl/l10n"
+	"github.com/invopop/gobl/tax"
+	"github.com/invopop/jsonschema"
+	"github.com/stretchr/testify/assert"
+	"github.com/stretchr/testify/require"
+)
+
+func TestIdentityJSONSchemaExtend(t *testing.T) {
+	eg := `{
+		"properties": {
+			"code": {
+				"$ref": "https://gobl.org/draft-0/cbc/code",
+				"title": "Code"
+			}
+		}
+	}`
+	js := new(jsonschema.Schema)
+	require.NoError(t, json.Unmarshal([]byte(eg), js))
+
+	tax.Identity{}.JSONSchemaExtend(js)
+
+	prop, ok := js.Properties.Get("code")
+	require.True(t, ok)
+	assert.Empty(t, prop.Ref)
+	assert.Equal(t, "string", prop.Type)
+	assert.Equal(t, tax.IdentityCodeSchemaPattern, prop.Pattern)
+	assert.Equal(t, cbc.CodeMinLength, *prop.MinLength)
+	assert.Equal(t, cbc.CodeMaxLength, *prop.MaxLength)
+	assert.Equal(t, "Code", prop.Title)
+}
+
+func TestIdentityCodeSchemaPattern(t *testing.T) {
+	re := regexp.MustCompile(tax.IdentityCodeSchemaPattern)
+	tests := []struct {
+		country l10n.TaxCountryCode
+		code    cbc.Code
+	}{
+		{"ES", "B98602642"},
+		{"DE", "111111125"},
+		{"MX", "MNOP8201019HJ"},
+		{"MX", "K&A010301I16"},
+		{"MX", "ÑAB010301I16"},
+	}
+	for _, ts := range tests {
+		tID := &tax.Identity{Country: ts.country, Code: ts.code}
+		assert.NoError(t, tID.Validate(), "%s %s", ts.country, ts.code)
+		assert.True(t, re.MatchString(ts.code.String()), "%s %s", ts.country, ts.code)
+	}
+	for _, code := range []string{"", "b98602642", "B-98602642", "B 98602642", "K&A010301I16 "} {
+		assert.False(t, re.MatchString(code), code)
+	}
+}
